@@ -848,27 +848,26 @@ Qed.
 
 End Fix.
 
-(* the code as it is *)
+(* the code as it is (repairs D73 and D77 landed): the guards names_resolve and no_overlap are not needed *)
 Theorem run_columns_spec_asis : forall t L U f reqs, f <> ListFormOld ->
   wfb t = true -> reqs_resolvable t reqs = true -> all_found t reqs = true -> reqs <> [] ->
-  (f = DictForm -> no_overlap t reqs = true /\ no_pop_in_wildcard t U reqs = true) ->
+  (f = DictForm -> no_pop_in_wildcard t U reqs = true) ->
   covers L U (requested t f reqs) = true ->
   run_columns t L f reqs = Ok (map (col_of L) (spec_columns t U f reqs)).
 Proof.
-  intros t L U f reqs NF W R A NE G C. apply (run_columns_spec nofix); try assumption.
-  intro E. destruct (G E). split; auto.
+  intros t L U f reqs NF W R A NE G C. apply (run_columns_spec asis); try assumption.
+  intro E. split; [intro X; discriminate X | auto].
 Qed.
 
-(* the code with both proposed repairs: the guards names_resolve (D31) and no_overlap are not needed any more *)
-Definition bothfixes : fixes := {| fix_D31 := true; fix_overlap := true |}.
-Theorem run_columns_spec_repaired : forall t L U f reqs, f <> ListFormOld ->
-  wfb t = true -> reqs_resolvable_gen bothfixes t reqs = true -> all_found t reqs = true -> reqs <> [] ->
-  (f = DictForm -> no_pop_in_wildcard t U reqs = true) ->
+(* the code before those repairs *)
+Theorem run_columns_spec_before : forall t L U f reqs, f <> ListFormOld ->
+  wfb t = true -> reqs_resolvable_gen nofix t reqs = true -> all_found t reqs = true -> reqs <> [] ->
+  (f = DictForm -> no_overlap t reqs = true /\ no_pop_in_wildcard t U reqs = true) ->
   covers L U (requested t f reqs) = true ->
-  run_columns_gen bothfixes t L f reqs = Ok (map (col_of L) (spec_columns t U f reqs)).
+  run_columns_gen nofix t L f reqs = Ok (map (col_of L) (spec_columns t U f reqs)).
 Proof.
-  intros t L U f reqs NF W R A NE G C. apply (run_columns_spec bothfixes); try assumption.
-  intro E. split; [intro X; discriminate X | auto].
+  intros t L U f reqs NF W R A NE G C. apply (run_columns_spec nofix); try assumption.
+  intro E. destruct (G E). split; auto.
 Qed.
 
 (* ------------------------------------------------------------------------------------------ witnesses *)
@@ -886,10 +885,12 @@ Definition ox : string * string := ("op", "x").
 Definition full_statement : Prop :=
   forall t v pat, wfb t = true -> get_nodes t v pat = Ok (path_denotation t v pat).
 
-Lemma refuted_D31 : wfb two_branches = true /\
-  get_nodes two_branches (Some ox) ["all"; "c1"; "n0"] = Err KeyError /\
+(* D31 (repaired, D73): before the fix the missing child raised; now the branch is skipped *)
+Lemma D31_before_fix : wfb two_branches = true /\
+  get_nodes_gen nofix two_branches (Some ox) ["all"; "c1"; "n0"] = Err KeyError /\
+  get_nodes two_branches (Some ox) ["all"; "c1"; "n0"] = Ok [["a"; "c1"; "n0"]] /\
   path_denotation two_branches (Some ox) ["all"; "c1"; "n0"] = [["a"; "c1"; "n0"]] /\
-  names_resolve two_branches ["all"; "c1"; "n0"] = false.
+  names_resolve two_branches ["all"; "c1"; "n0"] = false /\ resolvable two_branches ["all"; "c1"; "n0"] = true.
 Proof. vm_compute. repeat split. Qed.
 
 Lemma refuted_too_long : wfb flat3 = true /\
@@ -904,8 +905,8 @@ Proof. vm_compute. repeat split. Qed.
 
 Lemma full_statement_refuted : ~ full_statement.
 Proof.
-  intro H. specialize (H two_branches (Some ox) ["all"; "c1"; "n0"] eq_refl).
-  destruct refuted_D31 as [_ [E _]]. rewrite E in H. discriminate.
+  intro H. specialize (H flat3 (Some ox) ["B"; "zzz"] eq_refl).
+  destruct refuted_too_long as [_ [E [E' _]]]. rewrite E, E' in H. discriminate.
 Qed.
 
 (* D06 (repaired): the list form relabelled the path BEFORE resolving it — B's column came back as A's *)
@@ -924,10 +925,13 @@ Lemma plain_key_regression :
     Ok [(["ab"], ("x", 1)); (["a"; "A"; "op/x"], ("x", 0)); (["a"; "B"; "op/x"], ("x", 1)); (["a"; "C"; "op/x"], ("x", 2))].
 Proof. vm_compute. repeat split. Qed.
 
-Lemma overlap_refuted :
-  run_columns flat3 L3 DictForm [("a", (["all"], ox)); ("b", (["all"], ox))] = Err KeyError /\
+(* overlapping wildcard keys (repaired, D77): before the fix KeyError, now all six columns *)
+Lemma overlap_before_fix :
+  run_columns_gen nofix flat3 L3 DictForm [("a", (["all"], ox)); ("b", (["all"], ox))] = Err KeyError /\
   List.length (spec_columns flat3 [] DictForm [("a", (["all"], ox)); ("b", (["all"], ox))]) = 6 /\
-  no_overlap flat3 [("a", (["all"], ox)); ("b", (["all"], ox))] = false.
+  no_overlap flat3 [("a", (["all"], ox)); ("b", (["all"], ox))] = false /\
+  map fst (match run_columns flat3 L3 DictForm [("a", (["all"], ox)); ("b", (["all"], ox))] with Ok l => l | Err _ => [] end) =
+  map fst (spec_columns flat3 [] DictForm [("a", (["all"], ox)); ("b", (["all"], ox))]).
 Proof. vm_compute. repeat split. Qed.
 
 (* get_run_func then run on one template: the stale map sends unit 1 of x to absolute position 3 + 1 = unit 4 *)
